@@ -31,6 +31,9 @@ type Prop struct {
 	Replay func(c *Ctx, raw json.RawMessage)
 	// Serial forces a single shard (checks that do their own process fan-out).
 	Serial bool
+	// Shards caps the number of shard processes (0 = one per core, at most 16);
+	// compile-and-run checks use few shards because `go build` is parallel itself.
+	Shards int
 	// Assumptions listed in the evidence file.
 	Assumptions []string
 	Rule        string
@@ -370,6 +373,9 @@ func numShards(p *Prop) int {
 	n := runtime.NumCPU()
 	if n > 16 {
 		n = 16
+	}
+	if p.Shards > 0 && n > p.Shards {
+		n = p.Shards
 	}
 	if n < 1 {
 		n = 1
